@@ -880,8 +880,16 @@ type HistCase struct {
 
 // genHistory draws a history with the given op kinds.
 func genHistory(t *rapid.T, p Profile, params ctlsim.Params, kinds []string, maxBatches, maxOps int) HistCase {
+	return genHistoryX(t, p, params, kinds, maxBatches, maxOps, false)
+}
+
+// genHistoryX optionally adds the rich extras (CA secrets, pods of the endpoints, tcp ConfigMap) to the initial world.
+func genHistoryX(t *rapid.T, p Profile, params ctlsim.Params, kinds []string, maxBatches, maxOps int, extras bool) HistCase {
 	g := newG(t, p)
 	g.genWorld()
+	if extras {
+		g.genRichExtras()
+	}
 	c := HistCase{Params: params}
 	for _, o := range g.W.List() {
 		c.Init = append(c.Init, o.Clone())
